@@ -177,3 +177,9 @@ def nontrivial(op, res):
     if t[0] == "err" and len(t) > 2 and t[2] not in ("0", "-"):
         return True
     return False
+
+
+def classify(v):
+    """call-site classes of known findings (findlib.py)"""
+    import findlib
+    return findlib.syntax_class(v["op"], v["implementation"])
